@@ -35,7 +35,7 @@ def run(chk):
     for _ in range(N):
         n = int(rng.integers(2, 9))
         rows = int(rng.integers(2, 8))
-        kind = ["Identity", "SVD", "SVD", "SVD-arpack", "RandomProjection", "Custom"][int(rng.integers(0, 6))]
+        kind = ["Identity", "SVD", "SVD", "SVD-arpack", "RandomProjection", "RandomProjection", "Custom"][int(rng.integers(0, 7))]
         lowrank = rng.random() < (0.6 if kind.startswith("SVD") else 0.3) and min(n, rows) >= 2
         if lowrank:
             r0 = int(rng.integers(1, min(n, rows)))
@@ -43,10 +43,12 @@ def run(chk):
         else:
             r0 = min(n, rows)
             X = rng.integers(-24, 25, size=(rows, n)) / 8.0
-        if kind == "RandomProjection" and rng.random() < 0.4:
+        bad_scaled = False
+        if kind == "RandomProjection" and rng.random() < 0.55:
             # badly scaled examples (exact powers of two): the modes X^T G stay full rank but become ill-conditioned
             X = X * (2.0 ** -np.linspace(0, int(rng.integers(12, 25)), rows))[:, None]
             chk.count("rp_badly_scaled")
+            bad_scaled = True
         if kind == "Identity":
             nb = None if rng.random() < 0.4 else int(rng.integers(1, rows + 1))
             mk = lambda: Identity(n_basis_modes=nb)
@@ -57,7 +59,7 @@ def run(chk):
             nb = int(rng.integers(1, hi + 1))
             mk = (lambda: SVD(n_basis_modes=nb, random_state=0)) if kind == "SVD" else (lambda: SVD(n_basis_modes=nb, algorithm="arpack", random_state=0))
         elif kind == "RandomProjection":
-            nb = int(rng.integers(1, 6))
+            nb = int(rng.integers(1, 6)) if not bad_scaled else max(2, min(rows, n) - int(rng.integers(0, 2)))      # as many modes as the data can carry
             mk = lambda: RandomProjection(n_basis_modes=nb, random_state=7)
         else:
             nb = int(rng.integers(1, n + 1))
